@@ -68,6 +68,12 @@ CHECKS = {
         note="Enumerates the file universe of this interpreter only; allow-list names are package/module names below the import root.",
         ref="DESIGN.md section 4 C17",
     ),
+    "C10": dict(
+        technique="explicit enumeration of stores (subsets of valid rows x subsets of 24 stale-row kinds x insertion orders) against the real CLI with a differential oracle (bounded exhaustive, E1+E4)",
+        text="Every subset of four valid rows combined with every subset of up to 2 (thorough 3) of 24 kinds of stale rows, in three insertion orders, is written directly into a database and run through stub / stub -v / stub module:qualname / apply; stdout, the applied file, the exit status and the exact count of skipped rows are compared with the run on the decodable rows alone.",
+        note="Corrupt rows (invalid JSON, wrong arity) are outside the property's list; identical rows are one trace.",
+        ref="DESIGN.md section 4 C10",
+    ),
 }
 
 NOT_YET = {}
